@@ -4,3 +4,5 @@
 package util
 
 func verifCrashPoint(name string) {}
+
+func verifStoragePoint(name, dir string) {}
